@@ -306,7 +306,7 @@ def rule_comment_end(ctx: Ctx, rid="C08.COMMENT-END"):
                                 text="; ".join(f"{r.name}={r.pattern}" for r in st.rules))
             else:
                 ctx.rep.ok(rid, con, "for every text, the state is left exactly at the end of the first '*/' "
-                           f"({L.stats.get('master_states', '?')} product states)", site=st.mod.site(st.node))
+                           "(product-automaton search over all texts)", site=st.mod.site(st.node))
             # silent: nothing in the state emits a token or enters another state
             for i, r in enumerate(st.rules):
                 good = i not in emits and i not in other_state
